@@ -167,6 +167,143 @@ T('c04_twin_conflicts_ge2', ['C04'],
 T('c04_twin_set_intersection', ['C04'],
   (A, '        resource_conflicts = [r for r in RESERVED_ARGS if r in self.resources]', '        resource_conflicts = set(RESERVED_ARGS) & set(self.resources)'))
 
+# ------------------------------------------------------------------ C06
+B('c06_sort_routes', ['C06', 'C11'], {'C06': 'R06.a', 'C11': 'R11.c'},
+  (A, '        for br in bound_routes:\n            self.routes.insert(index, br)\n            index += 1\n        return\n',
+      '        for br in bound_routes:\n            self.routes.insert(index, br)\n            index += 1\n        self.routes.sort(key=lambda r: -len(r.pattern))\n        return\n'))
+B('c06_insert_no_increment', ['C06'], 'R06.a',
+  (A, '            self.routes.insert(index, br)\n            index += 1\n', '            self.routes.insert(index, br)\n'))
+B('c06_break_on_method_mismatch', ['C06'], 'R06.b',
+  (A, '                dispatch_state.update_methods(route.methods)\n                continue\n', '                dispatch_state.update_methods(route.methods)\n                break\n'))
+B('c06_forget_update_methods', ['C06'], 'R06.b',
+  (A, '                dispatch_state.update_methods(route.methods)\n                continue\n', '                continue\n'))
+B('c06_forget_add_exception', ['C06'], 'R06.b',
+  (A, '            else:\n                dispatch_state.add_exception(ret)\n', '            else:\n                pass\n'))
+B('c06_breaking_falls_through', ['C06'], 'R06.b',
+  (A, "            if getattr(ret, 'is_breaking', True):\n                break\n", "            if getattr(ret, 'is_breaking', True) and ret.code >= 500:\n                break\n"))
+B('c06_is_breaking_default_false', ['C06'], 'R06.b',
+  (A, "            if getattr(ret, 'is_breaking', True):", "            if getattr(ret, 'is_breaking', False):"))
+B('c06_first_exception', ['C06'], 'R06.c', (R, '            return _dispatch_state.exceptions[-1]', '            return _dispatch_state.exceptions[0]'))
+B('c06_404_before_405', ['C06'], 'R06.c',
+  (R, '        if _dispatch_state.exceptions:\n            return _dispatch_state.exceptions[-1]\n        elif _dispatch_state.allowed_methods:',
+      '        if _dispatch_state.allowed_methods and not _dispatch_state.exceptions:\n            return _dispatch_state.exceptions[-1]\n        elif _dispatch_state.allowed_methods:'))
+B('c06_forget_head', ['C06'], 'R06.d', (R, "            if 'GET' in self.methods:\n                self.methods.add('HEAD')\n", ''))
+B('c06_method_no_upper', ['C06'], 'R06.d', (R, '            if method.upper() not in self.methods:', '            if method not in self.methods:'))
+B('c06_allow_dropped', ['C06'], 'R06.e',
+  (E, "        if self.allowed_methods:\n            # RFC 7231 6.5.5: a 405 response must carry an Allow header\n            self.headers['Allow'] = ', '.join(sorted(self.allowed_methods))\n", ''))
+B('c06_allow_constant', ['C06'], 'R06.e', (E, "self.headers['Allow'] = ', '.join(sorted(self.allowed_methods))", "self.headers['Allow'] = 'GET, HEAD'"))
+B('c06_execute_before_method', ['C06', 'C07'], {'C06': 'R06.b', 'C07': 'R07.a'},
+  (A, '            if not method_allowed:\n                dispatch_state.update_methods(route.methods)\n                continue\n            if route.is_branch:',
+      '            if route.is_branch:'))
+T('c06_twin_method_positive', ['C06', 'C07', 'C08'],
+  (A, '            if not method_allowed:\n                dispatch_state.update_methods(route.methods)\n                continue\n',
+      '            if method_allowed:\n                pass\n            else:\n                dispatch_state.update_methods(route.methods)\n                continue\n'))
+T('c06_twin_isinstance_positive', ['C06', 'C08'],
+  (A, '            if not isinstance(ret, HTTPException):\n                # TODO: verify behavior\n                break\n',
+      '            if isinstance(ret, HTTPException):\n                pass\n            else:\n                break\n'))
+
+# ------------------------------------------------------------------ C07
+B('c07_unquoted_location', ['C07'], 'R07.b', (A, "parts = [request.url_root.rstrip('/'), url_quote(norm_path),", "parts = [request.url_root.rstrip('/'), norm_path,"))
+B('c07_quote_safe_question', ['C07'], 'R07.b', (A, 'url_quote(norm_path)', "url_quote(norm_path, safe='/:?#')"))
+B('c07_query_dropped', ['C07'], 'R07.b', (A, "                                 '?', request.query_string.decode('utf8')]", "                                 ]"))
+B('c07_redirect_in_any_mode', ['C07'], 'R07.a', (A, '                    if route.slash_mode == S_REDIRECT:', '                    if route.slash_mode != S_STRICT:'))
+B('c07_redirect_before_method', ['C07', 'C06'], {'C07': 'R07.a', 'C06': 'R06.b'},
+  (A, '            method_allowed = route.match_method(method)\n            if not method_allowed:\n                dispatch_state.update_methods(route.methods)\n                continue\n            if route.is_branch:',
+      '            if route.is_branch:'),
+  (A, '            try:\n                ret = route.execute(**params)',
+      '            method_allowed = route.match_method(method)\n            if not method_allowed:\n                dispatch_state.update_methods(route.methods)\n                continue\n            try:\n                ret = route.execute(**params)'))
+B('c07_strict_executes', ['C07'], 'R07.a',
+  (A, '                        dispatch_state.add_exception(nf_exc)\n                        continue\n', '                        dispatch_state.add_exception(nf_exc)\n'))
+B('c07_null_route_inherits', ['C07'], 'R07.c', (R, "        kw['inherit_slashes'] = False\n", "        kw['inherit_slashes'] = True\n"))
+B('c07_mode_swapped', ['C07', 'C10'], {'C07': 'R07.c', 'C10': 'R10'},
+  (R, 'self.slash_mode = app.slash_mode if inherit_slashes else route.slash_mode', 'self.slash_mode = route.slash_mode if inherit_slashes else app.slash_mode'))
+B('c07_kwarg_renamed', ['C07', 'C10'], {'C07': 'R07.c', 'C10': 'R10.e'},
+  (A, "        kwargs.setdefault('inherit_slashes', self.inherit_slashes)\n", "        kwargs.setdefault('inherit_slash', self.inherit_slashes)\n"))
+B('c07_redirect_leaf', ['C07'], 'R07.a',
+  (A, '            if route.is_branch:\n                norm_path = normalize_path(url_path, route.is_branch)', '            if True:\n                norm_path = normalize_path(url_path, route.is_branch)'))
+T('c07_twin_quote_from_urllib', ['C07'], (A, 'url_quote(norm_path)', 'quote(norm_path)'))
+T('c07_twin_concat', ['C07'],
+  (A, "                        parts = [request.url_root.rstrip('/'), url_quote(norm_path),\n                                 '?', request.query_string.decode('utf8')]\n                        return redirect(''.join(parts))",
+      "                        location = request.url_root.rstrip('/') + url_quote(norm_path) + '?' + request.query_string.decode('utf8')\n                        return redirect(location)"))
+
+# ------------------------------------------------------------------ C08
+B('c08_execute_outside_try', ['C08'], 'R08.a',
+  (A, '            try:\n                ret = route.execute(**params)\n                if not isinstance(ret, BaseResponse):',
+      '            ret = route.execute(**params)\n            try:\n                if not isinstance(ret, BaseResponse):'))
+B('c08_narrow_except', ['C08'], 'R08.a', (A, '            except Exception as exc:\n                ret = exc', '            except (ValueError, TypeError, KeyError) as exc:\n                ret = exc'))
+B('c08_no_typeerror_for_nonresponse', ['C08'], 'R08.b',
+  (A, "                if not isinstance(ret, BaseResponse):\n                    msg = 'expected Response, received %r' % type(ret)\n                    raise TypeError(msg)\n", '                pass\n'))
+B('c08_typeerror_outside', ['C08'], 'R08.b',
+  (A, "                ret = route.execute(**params)\n                if not isinstance(ret, BaseResponse):\n                    msg = 'expected Response, received %r' % type(ret)\n                    raise TypeError(msg)\n            except RerouteWSGI:\n                raise\n            except Exception as exc:\n                ret = exc\n                if not isinstance(ret, HTTPException):\n                    uncaught_params = dict(params, _route=route, _error=ret)\n                    ret = err_handler.uncaught_to_response(**uncaught_params)\n",
+      "                ret = route.execute(**params)\n            except RerouteWSGI:\n                raise\n            except Exception as exc:\n                ret = exc\n                if not isinstance(ret, HTTPException):\n                    uncaught_params = dict(params, _route=route, _error=ret)\n                    ret = err_handler.uncaught_to_response(**uncaught_params)\n            if not isinstance(ret, BaseResponse):\n                msg = 'expected Response, received %r' % type(ret)\n                raise TypeError(msg)\n"))
+B('c08_always_reraise', ['C08'], 'R08.c', (E, '        if self.reraise_uncaught:\n            raise\n        eh = _application.error_handler', '        if True:\n            raise\n        eh = _application.error_handler'))
+B('c08_no_render_fallback', ['C08'], 'R08.a',
+  (A, '            try:\n                ret = ret.source_route.execute_error(**error_params)\n            except Exception:\n                ret = default_render_error(**error_params)\n',
+      '            ret = ret.source_route.execute_error(**error_params)\n'))
+B('c08_cache_params_on_route', ['C08', 'C12'], {'C08': 'R08.d', 'C12': 'R12'},
+  (A, '            request.path_params = path_params\n', '            request.path_params = path_params\n            route.last_path_params = path_params\n'))
+B('c08_cache_request_on_app', ['C08', 'C12'], {'C08': 'R08.d', 'C12': 'R12.a'},
+  (A, '        dispatch_state = DispatchState()\n', '        dispatch_state = DispatchState()\n        self._last_request = request\n'))
+B('c08_reroute_swallowed', ['C08'], 'R08.a', (A, '            except RerouteWSGI:\n                raise\n            except Exception as exc:', '            except Exception as exc:'))
+B('c08_error_handler_remembers', ['C08', 'C12'], {'C08': 'R08.d', 'C12': 'R12.a'},
+  (E, '        eh = _application.error_handler\n        exc_info = eh.exc_info_type.from_current()\n        return eh.server_error_type(repr(exc_info),',
+      '        eh = _application.error_handler\n        exc_info = eh.exc_info_type.from_current()\n        self.last_exc_info = exc_info\n        return eh.server_error_type(repr(exc_info),'))
+T('c08_twin_base_exception', ['C08'], (A, '            except Exception as exc:\n                ret = exc', '            except BaseException as exc:\n                ret = exc'))
+
+# ------------------------------------------------------------------ C11 / C12 / C13
+B('c11_bind_mutates_route', ['C11'], 'R11.a',
+  (R, "        self.middlewares = tuple(merge_middlewares(getattr(route, 'middlewares', []), app_mws))",
+      "        route.middlewares.extend(m for m in app_mws if m not in route.middlewares)\n        self.middlewares = tuple(route.middlewares)"))
+B('c11_bind_updates_app_resources', ['C11'], 'R11.a',
+  (R, "        self.resources = dict(app_resources)\n        self.resources.update(getattr(route, 'resources', {}))",
+      "        self.resources = app_resources\n        self.resources.update(getattr(route, 'resources', {}))"))
+B('c11_insert_inside_binding_loop', ['C11'], 'R11',
+  (A, '        for rt in self.app.routes:\n            if isinstance(rt, NullRoute):\n                continue\n            bound_rt = rt.bind(app, **kwargs)\n            ret.append(bound_rt)\n',
+      '        for rt in self.app.routes:\n            if isinstance(rt, NullRoute):\n                continue\n            bound_rt = rt.bind(app, **kwargs)\n            app.routes.append(bound_rt)\n'))
+B('c11_add_binds_lazily', ['C11', 'C01'], {'C11': 'R11.b', 'C01': 'R01.a'},
+  (A, '        if callable(getattr(rf, \'bind_all\', None)):\n            bound_routes = rf.bind_all(self, **kwargs)\n        else:\n            bound_routes = [rf.bind(self, **kwargs)]\n        for br in bound_routes:\n            self.routes.insert(index, br)\n            index += 1\n',
+      '        for rt in list(rf.iter_routes()):\n            self.routes.insert(index, rt.bind(self, **kwargs))\n            index += 1\n'))
+B('c11_module_cache', ['C11', 'C12'], {'C11': 'R11.d', 'C12': 'R12.a'},
+  (A, '_REQ_ID_ITER = itertools.count()\n', '_REQ_ID_ITER = itertools.count()\n_LAST_PARAMS = {}\n'),
+  (A, '            request.path_params = path_params\n', '            request.path_params = path_params\n            _LAST_PARAMS[url_path] = path_params\n'))
+B('c11_route_keeps_caller_list', ['C11'], 'R11.a',
+  (R, "        self.middlewares = list(kwargs.pop('middlewares', []))", "        self.middlewares = kwargs.pop('middlewares', [])"))
+B('c11_methods_mutated_at_bind', ['C11'], 'R11.a',
+  (R, '        self.methods = route.methods\n', "        self.methods = route.methods\n        if self.methods:\n            self.methods.add('OPTIONS')\n"))
+B('c11_register_converter_at_bind', ['C11'], 'R11.d',
+  (R, '        self.regex, self.converters = _compile_path_pattern(self.pattern,', "        _register_converter('path', unicode, _STR_PATTERN)\n        self.regex, self.converters = _compile_path_pattern(self.pattern,"))
+T('c11_twin_dict_copy', ['C11', 'C02', 'C04'],
+  (R, "        self.resources = dict(app_resources)\n        self.resources.update(getattr(route, 'resources', {}))",
+      "        self.resources = dict(app_resources)\n        self.resources.update(dict(getattr(route, 'resources', {})))"))
+
+B('c12_counter_reset', ['C12'], 'R12.c',
+  (A, '            request.request_id = next(_REQ_ID_ITER)\n', '            request.request_id = next(itertools.count())\n'))
+B('c12_route_remembers_request', ['C12'], 'R12',
+  (R, "        injectables.update(self.resources)\n        injectables.update(kwargs)\n        return inject(self._execute", "        self._current_request = request\n        injectables.update(self.resources)\n        injectables.update(kwargs)\n        return inject(self._execute"))
+B('c12_gzip_remembers', ['C12'], 'R12.d', (GZ, '        resp = next()\n', '        resp = next()\n        self.last_response = resp\n'))
+B('c12_generated_global', ['C12'], 'R12.a', (C, "    __traceback_hide__ = True\n    context = endpoint({endpoint_args})", "    global context\n    context = endpoint({endpoint_args})"))
+B('c12_match_path_caches', ['C12', 'C08'], {'C12': 'R12', 'C08': 'R08.d'},
+  (R, "        groups = match.groupdict()\n", "        groups = match.groupdict()\n        self._last_groups = groups\n"))
+
+B('c13_wrap_order_not_reversed', ['C13'], 'R13.b', (A, '        for mw in reversed(all_mws):', '        for mw in all_mws:'))
+B('c13_environ_copy', ['C13'], 'R13.a', (A, '            return rre.wsgi_app(environ, start_response)', '            return rre.wsgi_app(dict(environ), start_response)'))
+B('c13_environ_written', ['C13'], 'R13.a', (A, '        request = self.request_type(environ)\n', "        request = self.request_type(environ)\n        environ['clastic.app'] = self\n"))
+B('c13_start_response_called', ['C13'], 'R13.a',
+  (A, '        return response(environ, start_response)', "        start_response('200 OK', [])\n        return response(environ, start_response)"))
+B('c13_error_handler_outermost', ['C13'], 'R13.b',
+  (A, '        self.set_error_handler(error_handler)\n\n        routes = routes or []', '        routes = routes or []'),
+  (A, "            self._dispatch_wsgi = _safe_wrap_wsgi('middleware', mw, self._dispatch_wsgi)\n        return\n",
+      "            self._dispatch_wsgi = _safe_wrap_wsgi('middleware', mw, self._dispatch_wsgi)\n        self.set_error_handler(error_handler)\n        return\n"))
+B('c13_dedupe_keeps_last', ['C13'], 'R13.b',
+  (A, '            if mw not in all_mw:\n                all_mw.append(mw)\n', '            if mw in all_mw:\n                all_mw.remove(mw)\n            all_mw.append(mw)\n'))
+B('c13_file_not_wrapped', ['C13', 'C14'], {'C13': 'R13.c', 'C14': 'R14.d'}, (ST, '    resp.response = file_wrapper(file_obj)\n', '    resp.response = [file_obj.read()]\n'))
+B('c13_call_bypasses_stack', ['C13'], 'R13.a',
+  (A, '    def __call__(self, environ, start_response):\n        return self._dispatch_wsgi(environ, start_response)',
+      '    def __call__(self, environ, start_response):\n        return Application._dispatch_wsgi(self, environ, start_response)'))
+T('c13_twin_rename_params', ['C13'],
+  (A, '    def __call__(self, environ, start_response):\n        return self._dispatch_wsgi(environ, start_response)',
+      '    def __call__(self, env, start):\n        return self._dispatch_wsgi(env, start)'))
+
 # ------------------------------------------------------------------ C14
 B('c14_join_raw_path', ['C14'], 'R14.a', (ST, 'full_path = pjoin(sr, rel_path)', 'full_path = pjoin(sr, path)'))
 B('c14_drop_pardir_test', ['C14'], 'R14.a',
